@@ -152,6 +152,11 @@ func AltIndex(alt float64, v int64, bandM float64) IndexResult {
 	band.Mul(band, pow2Rat(v-25))
 	lower := new(big.Rat).Sub(pos, new(big.Rat).SetInt(idx))
 	upper := new(big.Rat).Sub(big.NewRat(1, 1), lower)
+	if lower.Sign() == 0 && bandM < 1e-300 {
+		// exactly on a cell boundary and no real tolerance asked for (the band only covers sub-normal altitudes that
+		// underflow): scaling by a power of two is exact, floor puts the altitude into the upper cell
+		return res
+	}
 	if lower.Cmp(band) <= 0 {
 		res.NearEdge, res.Alt = true, res.Index-1
 	} else if upper.Cmp(band) <= 0 {
